@@ -286,8 +286,24 @@ def judge(ctx, p, outcome):
             if enc in ("latin_1", "latin1"):
                 ctx.prove(core.SBool(ctx, core.z3.And(ch >= 0, ch <= 255)), "C17: a record character is not representable as one Latin-1 byte")
             else:
-                # any other encoding must still produce exactly this one byte: only true for ASCII under utf-8
-                ctx.prove(core.SBool(ctx, ch < 128), f"C17: a Latin-1 character is not written as its single Latin-1 byte (encoding {enc})")
+                # any other encoding must still produce exactly this one byte: the set of code points for which it does is computed
+                # from the codec itself (utf-8: 0..127; iso8859_15: all of Latin-1 but eight code points)
+                same = []
+                for cp in range(256):
+                    try:
+                        if chr(cp).encode(enc.replace("_", "-") if enc.startswith("utf") else enc) == bytes([cp]):
+                            same.append(cp)
+                    except (UnicodeEncodeError, LookupError):
+                        pass
+                runs, start = [], None
+                for cp in range(257):
+                    if cp in same and start is None:
+                        start = cp
+                    if cp not in same and start is not None:
+                        runs.append((start, cp - 1))
+                        start = None
+                cond = core.z3.Or(*[core.z3.And(ch >= a, ch <= b) for a, b in runs]) if runs else core.z3.BoolVal(False)
+                ctx.prove(core.SBool(ctx, cond), f"C17: a Latin-1 character is not written as its single Latin-1 byte (encoding {enc})")
         else:
             if isinstance(e, int):
                 if g != e:
